@@ -533,6 +533,26 @@ except ValueError as e:
 
 
 # ---- Detector bucket setters -----------------------------------------------------------------------
+def rp_atomic(attr_name, allowed):
+    def mk(w):
+        return {"code": f"""
+import numpy as np, c13_native as N
+VIOLATED, DETAIL = False, 'a refused assignment through the detector attribute leaves the bucket as it was'
+for kind in ('CCD', 'MKID'):
+    det = N.detector(3, 4, kind); other = N.detector(5, 5, kind)
+    old = np.full((3, 4), 2, dtype={allowed[-1]!r}); det.{attr_name}._array = old.copy()
+    for bad in (np.ones((5, 5), dtype={allowed[-1]!r}), np.ones((3, 4), dtype='int64'), N.make_value('xr', rows=5, cols=5)):
+        other.{attr_name}._array = bad
+        try:
+            det.{attr_name} = other.{attr_name}
+        except Exception:
+            now = det.{attr_name}._array
+            if now is None or not isinstance(now, np.ndarray) or not np.array_equal(now, old):
+                VIOLATED, DETAIL = True, f'{{kind}}: a refused assignment of {{type(bad).__name__}}{{getattr(bad, "shape", "")}} left the bucket holding {{None if now is None else "other data"}}'; break
+""", "expect": "detector.<bucket> = <invalid bucket> raises and keeps the previous content"}
+    return mk
+
+
 @unit("C13", "Detector.setters")
 def detector_setters(u: Unit):
     """det.<bucket> = other_container keeps rep of the detector's own container."""
@@ -599,6 +619,9 @@ DETAIL = 'detector.{attr_name} = <{cls} holding ' + repr(getattr(other.{attr_nam
 """, "expect": "Detector bucket setter keeps the representation invariant"}
                     u.oblige(p, f"detector.setters[{attr_name}:{pre},{src_pre},{p.kind}]", zb(rep(p, p.ex.self_ref, allowed, photon=cls == "Photon")),
                              w, rp, info={"small": [ROWS, COLS, z3.Int("rows_b"), z3.Int("cols_b"), z3.Int("src_s0"), z3.Int("src_s1")]})
+                    if p.kind == "raise":      # a refused assignment leaves the previous content of the detector's own container untouched
+                        u.oblige(p, f"detector.setters.atomic[{attr_name}:{pre},{src_pre}]", zb(unchanged(p, p.ex.self_ref)), w, rp_atomic(attr_name, allowed),
+                                 info={"small": [ROWS, COLS, z3.Int("rows_b"), z3.Int("cols_b"), z3.Int("src_s0"), z3.Int("src_s1")]})
 
 
 # ---- Photon equality (its own __eq__: 2-D arrays and multi-wavelength cubes) -------------------------------------------------------
